@@ -9,7 +9,7 @@
    functions: the theorems do not depend on them.  The commitment bit of a header is a field of the
    header (any bits: the adversary model). *)
 From BV Require Import lib.Ints lib.ChainParams gen.Params_gen model.Pow model.HeadersSync
-  proofs.HeadersSyncLemmas proofs.HeadersSyncMain.
+  proofs.HeadersSyncLemmas proofs.HeadersSyncMain proofs.HeadersSyncCommit.
 Local Open Scope Z_scope.
 
 (* the invariant of the states between calls holds initially and is preserved by every call *)
@@ -65,11 +65,8 @@ Print Assumptions C33_released_are_received_and_buried.
    permitted difficulty transition from the previous buffered header (from the sync start when the
    buffer is empty), and at a commitment height (while not yet releasing everything) carries the
    bit stored next in the commitment queue, which is consumed.
-   FULL CLAUSE OF THE STATEMENT, NOT PROVED AS A WHOLE: "each released header [was] followed by ...
-   redownloaded headers that matched the commitments taken in the first pass" as a statement about
-   the heights at which the bits were taken (this theorem is the per-header step: queue order),
-   and "is checked for proof of work before it is stored" (CheckHeadersPoW is in net_processing,
-   outside this model). *)
+   NOT PROVED (hence _partial): "is checked for proof of work before it is stored": CheckHeadersPoW
+   is called by net_processing on every received batch, outside this model. *)
 Theorem C33_second_pass_checks_partial : forall permitted proof_of p s h s',
   store_redownloaded permitted proof_of p s h = (true, s') -> s_state s = REDOWNLOAD ->
   h_prev h = s_rlast_hash s /\
@@ -78,6 +75,22 @@ Theorem C33_second_pass_checks_partial : forall permitted proof_of p s h s',
      s_commitments s = h_cbit h :: s_commitments s').
 Proof. exact hs_second_pass_checks. Qed.
 Print Assumptions C33_second_pass_checks_partial.
+
+(* The whole second pass against the whole first pass.  [accepted PRESYNC / REDOWNLOAD] are the
+   headers of the successful calls of each pass, [cv p h l] the commitment bits of a run of headers
+   [l] following height [h] (the bits at the heights with height % period = offset).  While the sync
+   is in REDOWNLOAD: the bits of ALL re-downloaded headers accepted so far (released or still
+   buffered) are, height by height, the bits committed in the first pass, and the queue holds exactly
+   the first-pass bits not yet matched.  (Heights are assumed to stay below INT32_MAX.) *)
+Theorem C33_second_pass_matches_first_pass_commitments : forall permitted proof_of p,
+  0 <= p_max_commitments p -> 0 <= p_buffer p ->
+  forall calls, 0 <= p_start_height p -> p_start_height p + total calls <= INT32_MAX ->
+  let s := run_state permitted proof_of p (hs_init p) calls in
+  s_state s = REDOWNLOAD ->
+  cv p (p_start_height p) (accepted permitted proof_of p PRESYNC (hs_init p) calls) =
+  cv p (p_start_height p) (accepted permitted proof_of p REDOWNLOAD (hs_init p) calls) ++ s_commitments s.
+Proof. exact hs_commitments_match. Qed.
+Print Assumptions C33_second_pass_matches_first_pass_commitments.
 
 (* non-vacuity: period 1, buffer 2, minimum work = 5 headers at the pow limit; an honest peer
    serves 6 headers twice: nothing in the first pass, then headers 1,2 and finally 3..6 *)
